@@ -175,11 +175,17 @@ pub enum FileOp {
     TamperCrlf,
     TamperEdit,
     TamperBlankLine,
+    /// append a line terminator ("\n" or "\r\n") to the file: still the output, ignoring line endings
+    TamperFinalTerminator(bool),
+    /// remove the final line terminator, if any
+    TamperStripFinal,
+    /// from here on the CLI is run with --format (rustfmt): several lines, final newline
+    ToggleFormat,
     Delete,
 }
 
 fn fileop() -> BoxedStrategy<FileOp> {
-    prop_oneof![3 => Just(FileOp::Write), 5 => Just(FileOp::Check), 2 => Just(FileOp::TamperCrlf), 2 => Just(FileOp::TamperEdit), 1 => Just(FileOp::TamperBlankLine), 1 => Just(FileOp::Delete)].boxed()
+    prop_oneof![3 => Just(FileOp::Write), 5 => Just(FileOp::Check), 2 => Just(FileOp::TamperCrlf), 2 => Just(FileOp::TamperEdit), 1 => Just(FileOp::TamperBlankLine), 2 => any::<bool>().prop_map(FileOp::TamperFinalTerminator), 1 => Just(FileOp::TamperStripFinal), 2 => Just(FileOp::ToggleFormat), 1 => Just(FileOp::Delete)].boxed()
 }
 
 fn check_c17(cli: &Cli, case: &(EnumSrc, Vec<FileOp>), run: &mut Run) -> Result<(), String> {
@@ -226,11 +232,58 @@ fn check_c17(cli: &Cli, case: &(EnumSrc, Vec<FileOp>), run: &mut Run) -> Result<
     run.sample(|| json!({"source": src, "history": format!("{ops:?}")}));
     // (4) write / check / tamper history against a file-state model
     let mut model: Option<String> = None;
+    let plain_out = expected_out.clone();
+    let mut expected_out = expected_out;
+    let mut format = false;
+    let rustfmt_ok = Command::new("rustfmt").arg("--version").output().map(|o| o.status.success()).unwrap_or(false);
     for (i, op) in ops.iter().enumerate() {
         run.eval(1);
+        let with_fmt = |base: &[&'static str]| -> Vec<&'static str> {
+            let mut v = base.to_vec();
+            if format {
+                v.push("--format");
+            }
+            v
+        };
         match op {
+            FileOp::ToggleFormat => {
+                if !rustfmt_ok {
+                    run.count("format_ops_skipped(no rustfmt)", 1);
+                    continue;
+                }
+                format = !format;
+                if format {
+                    let (c, out, err) = cli.run(&["input.rs", "--format"]);
+                    if c != 0 {
+                        return Err(format!("op #{i}: logos-cli --format failed (exit {c}): {err}"));
+                    }
+                    // stdout mode prints the output and a newline
+                    expected_out = out.strip_suffix('\n').unwrap_or(&out).to_string();
+                    if syn::parse_str::<syn::File>(&expected_out).is_err() {
+                        return Err(format!("op #{i}: logos-cli --format output is not valid Rust"));
+                    }
+                    run.count("histories_with_format", 1);
+                } else {
+                    expected_out = plain_out.clone();
+                }
+            }
+            FileOp::TamperFinalTerminator(crlf) => {
+                if let Some(m) = &model {
+                    let t = format!("{m}{}", if *crlf { "\r\n" } else { "\n" });
+                    std::fs::write(&output, &t).unwrap();
+                    model = Some(t);
+                    run.count("final_terminator_tampers", 1);
+                }
+            }
+            FileOp::TamperStripFinal => {
+                if let Some(m) = &model {
+                    let t = m.strip_suffix("\r\n").or_else(|| m.strip_suffix('\n')).unwrap_or(m).to_string();
+                    std::fs::write(&output, &t).unwrap();
+                    model = Some(t);
+                }
+            }
             FileOp::Write => {
-                let (c, _, err) = cli.run(&["input.rs", "--output", "out.gen.rs"]);
+                let (c, _, err) = cli.run(&with_fmt(&["input.rs", "--output", "out.gen.rs"]));
                 if c != 0 {
                     return Err(format!("op #{i} write: exit {c}: {err}"));
                 }
@@ -246,7 +299,7 @@ fn check_c17(cli: &Cli, case: &(EnumSrc, Vec<FileOp>), run: &mut Run) -> Result<
             FileOp::Check => {
                 let before = std::fs::read(&output).ok();
                 let mtime = std::fs::metadata(&output).ok().and_then(|m| m.modified().ok());
-                let (c, _, _) = cli.run(&["input.rs", "--check", "--output", "out.gen.rs"]);
+                let (c, _, _) = cli.run(&with_fmt(&["input.rs", "--check", "--output", "out.gen.rs"]));
                 let should_pass = model.as_ref().map(|m| m.lines().eq(expected_out.lines())).unwrap_or(false);
                 if (c == 0) != should_pass {
                     return Err(format!("op #{i} --check exited {c} but the file {} the generated output (ignoring line endings)", if should_pass { "holds" } else { "does not hold" }));
@@ -292,7 +345,7 @@ pub fn main_c17(args: &Args) -> i32 {
         "C17",
         &args.tier,
         args.seed,
-        "proptest enum sources (0-5 outer attributes in generated order: derive lists with Logos first/middle/last/alone/absent-in-this-list, path-qualified derives incl. logos::Logos, several derive attributes, cfg_attr, repr, docs, foreign attributes, logos attributes; 1-5 variants with docs/cfg/foreign/logos attributes, unit and one-field variants with field attributes, lifetimes) x histories vec(op,0..6) over {write, check, tamper CRLF / edit / blank line, delete}; oracle: stdout = [enum, impl] valid Rust, enum == input minus logos/token/regex attributes and the Logos derive (computed with syn), impl == logos_codegen::generate(input), --check exits 0 iff file lines == output lines and never changes bytes or mtime, write leaves exactly the output; evaluation = one CLI invocation group; non-trivial = distinct sources with a path derive, >= 2 derive attributes or a field attribute",
+        "proptest enum sources (0-5 outer attributes in generated order: derive lists with Logos first/middle/last/alone/absent-in-this-list, path-qualified derives incl. logos::Logos, several derive attributes, cfg_attr, repr, docs, foreign attributes, logos attributes; 1-5 variants with docs/cfg/foreign/logos attributes, unit and one-field variants with field attributes, lifetimes) x histories vec(op,0..6) over {write, check, tamper CRLF / edit / blank line / final terminator added or removed, switch --format on and off, delete}; oracle: stdout = [enum, impl] valid Rust, enum == input minus logos/token/regex attributes and the Logos derive (computed with syn), impl == logos_codegen::generate(input), --check exits 0 iff file lines == output lines and never changes bytes or mtime, write leaves exactly the output; evaluation = one CLI invocation group; non-trivial = distinct sources with a path derive, >= 2 derive attributes or a field attribute",
     );
     let bin = PathBuf::from(args.extra.get("cli").expect("--cli"));
     let dir = model::run::root().join("work/cli-scratch/c17");
